@@ -4,10 +4,10 @@ import PonyVerif.Model.SetCount
 /-
   Line-protocol entry for the SetData bookkeeping model (C10, `count ± added ∓ removed`).
   request : {"op":"run","cfg":{"m2m":b,"owning":b,"fixRemove":b,"fixFlush":b},"db":[ids],
-             "ops":[{"k":"seen"|"revAdd"|"revRemove"|"add"|"remove","x":id} | {"k":"loadAll"|"count"|"flush"}]}
+             "ops":[{"k":"seen"|"revAdd"|"revRemove"|"add"|"remove"|"contains"|"containsRev","x":id} | {"k":"loadAll"|"count"|"flush"}]}
             a request with "model":"session" is the request of Drive/C09 (the session model shared with C09) and is forwarded
   reply   : {"steps":[{"err":null|"assertion"|"phantom","ret":int|null,"valid":b,"safe":b,
-                       "sd":{"items":[..],"fully":b,"count":int|null,"added":[..],"removed":[..]},"db":[..],"spec":[..]}]}
+                       "sd":{"items":[..],"fully":b,"count":int|null,"added":[..],"removed":[..],"absent":[..]},"db":[..],"spec":[..]}]}
             after an error the state stays and the remaining steps repeat it
 -/
 namespace PonyVerif.Drive.C10
@@ -21,6 +21,8 @@ def opOfJson (j : Json) : Except String Op := do
   | "revRemove" => pure (.revRemove (← argNat j "x"))
   | "add" => pure (.add (← argNat j "x"))
   | "remove" => pure (.remove (← argNat j "x"))
+  | "contains" => pure (.contains (← argNat j "x"))
+  | "containsRev" => pure (.containsRev (← argNat j "x"))
   | "loadAll" => pure .loadAll
   | "count" => pure .count
   | "flush" => pure .flush
@@ -28,7 +30,7 @@ def opOfJson (j : Json) : Except String Op := do
 
 def jSd (sd : SetData) : Json := Json.mkObj [
   ("items", toJson sd.items), ("fully", toJson sd.fully), ("count", jOptInt sd.count),
-  ("added", toJson sd.added), ("removed", toJson sd.removed)]
+  ("added", toJson sd.added), ("removed", toJson sd.removed), ("absent", toJson sd.absent)]
 
 def handle (j : Json) : Except String Json := do
   if (j.getObjValAs? String "model").toOption == some "session" then PonyVerif.Drive.C09.handle j else
